@@ -24,11 +24,12 @@ import (
 //	legacy state   ContractClassHash ch:<a>=<c>   ContractNonce nn:<a>=<v>   ContractDeploymentHeight dh:<a>=<h>
 //	               DeprecatedContract{Storage,Nonce,ClassHash}History  hs:<a>:<k>:<b>=<v>  hn:<a>:<b>=<v>  hc:<a>:<b>=<v>
 //	new state      Contract ct:<a>=<nonce>,<class>,<height>   Contract{Storage,Nonce,ClassHash}History hs/hn/hc
+//	               ContractTrieStorage, leaf nodes only  lf:<a>:<k>=<v>  (round 5: what the head reader fetches by path)
 //	both           Class cl:<c>=<at>   ClassCasmHashMetadata mt:<c>=<declaredAt>,<v2>,<migratedAt>,<v1|->
 //	               ChainHeight ht=<h>   BlockHeadersByNumber hd:<n>=<hash>   StateUpdatesByBlockNumber su:<n>
 //	               BlockCommitments cm:<n>   BlockHeaderNumbersByHash hi:<hash>=<n>
 //
-// Not compared: trie nodes (C01), transactions / receipts / filters (C04, C05), and — on a node of one
+// Not compared: inner trie nodes, class / contract trie (C01), transactions / receipts / filters (C04, C05), and — on a node of one
 // backend — the buckets of the other (they must be EMPTY: checked).
 
 func feltHex(b []byte) string { return hx(new(felt.Felt).SetBytes(b)) }
@@ -73,7 +74,11 @@ func histTok(tag string, withSlot bool) func(k, v []byte) string {
 func realStore(n *node) ([]string, error) {
 	var toks []string
 	add := func(b db.Bucket, f func(k, v []byte) string) error {
-		return scan(n.store, b, func(k, v []byte) { toks = append(toks, f(k, v)) })
+		return scan(n.store, b, func(k, v []byte) {
+			if t := f(k, v); t != "" {
+				toks = append(toks, t)
+			}
+		})
 	}
 	u64 := func(v []byte) string {
 		if len(v) != 8 {
@@ -104,6 +109,21 @@ func realStore(n *node) ([]string, error) {
 		{db.ContractStorageHistory, histTok("hs", true)},
 		{db.ContractNonceHistory, histTok("hn", false)},
 		{db.ContractClassHashHistory, histTok("hc", false)},
+		{db.ContractTrieStorage, func(k, v []byte) string {
+			// core/trie2/trieutils nodeKeyByPath: owner(32) ++ node type ++ active path bytes ++ path length.
+			// Only the LEAF nodes of the storage tries are modelled (NState.leaves: what the head reader
+			// fetches by path): node type 2, path length 251 (32 active bytes), value = the felt.
+			if len(k) < 34 {
+				return fmt.Sprintf("lf:malformed-key-%x", k)
+			}
+			if k[32] != 2 {
+				return "" // inner node: trie structure is C01's
+			}
+			if len(k) != 32+1+32+1 || k[len(k)-1] != 251 {
+				return fmt.Sprintf("lf:malformed-leaf-key-%x", k)
+			}
+			return fmt.Sprintf("lf:%s:%s=%s", feltHex(k[:32]), feltHex(k[33:65]), feltHex(v))
+		}},
 	}
 	mine, other := legacy, newer
 	if n.newSt {
